@@ -649,7 +649,7 @@ func init() {
 	register(&Rule{
 		ID: "PROG-2",
 		Doc: "repeat-while-improved loops make strict progress: in a loop that repeats as long as a boolean flag was raised during the last pass (the flag is a loop-carried constant: cleared at the start of a pass, raised inside it), " +
-			"every place that raises the flag is dominated by the true edge of a STRICT comparison (< or >) between two integer results of the same counting function - the count after the change against the count before it. " +
+			"every place that raises the flag is dominated by the true edge of a STRICT comparison (< or >) of numbers - the count after the change against the count before it - or by a bool-returning helper that reports true only in that way; the rule applies to loops in which raising the flag depends on an ordered comparison at all (improvement loops). " +
 			"A flag that can also be raised on an equally good result lets two states alternate for ever (the adjacent-exchange pass of the ordering phase swaps the same pair back and forth); a strictly decreasing non-negative count cannot",
 		Floor: 1,
 		Ctl:   []string{"internal__phase3__prog2.go.txt"},
@@ -670,92 +670,200 @@ func runProg2(m *Model, r *RuleResult) {
 		}
 		loops := naturalLoops(f)
 		nloop := 0
+		judged := map[*ssa.Phi]bool{}
 		for _, l := range loops {
-			h := l.Head
-			iff, ok := h.Instrs[len(h.Instrs)-1].(*ssa.If)
-			if !ok {
-				continue
-			}
-			flag, ok := iff.Cond.(*ssa.Phi)
-			if !ok || flag.Block() != h || !l.Body[h.Succs[0]] || l.Body[h.Succs[1]] {
-				continue
-			}
-			// resolve the loop-carried values to constants through phis; remember where each `true` comes from
-			type src struct {
-				val  bool
-				from *ssa.BasicBlock // predecessor block of the phi edge that carries the constant
-			}
-			var srcs []src
-			allConst := true
-			seen := map[*ssa.Phi]bool{}
-			var walk func(p *ssa.Phi, outerOnly bool)
-			walk = func(p *ssa.Phi, top bool) {
-				if seen[p] {
-					return
-				}
-				seen[p] = true
-				for i, e := range p.Edges {
-					pred := p.Block().Preds[i]
-					if top && !l.Body[pred] {
-						continue // initial value
-					}
-					switch x := e.(type) {
-					case *ssa.Const:
-						if x.Value == nil || x.Value.Kind() != constant.Bool {
-							allConst = false
-							continue
-						}
-						srcs = append(srcs, src{constant.BoolVal(x.Value), pred})
-					case *ssa.Phi:
-						if x == flag {
-							// the flag unchanged round an inner path: not the cleared-then-raised form
-							allConst = false
-							continue
-						}
-						walk(x, false)
-					default:
-						allConst = false
-					}
-				}
-			}
-			walk(flag, true)
-			hasTrue, hasFalse := false, false
-			for _, s := range srcs {
-				if s.val {
-					hasTrue = true
-				} else {
-					hasFalse = true
-				}
-			}
-			if !allConst || !hasTrue || !hasFalse {
-				continue
-			}
-			nloop++
-			key := fmt.Sprintf("strict-progress:%s#loop%d", funcKey(f), nloop)
-			ctl := m.FuncIsPosctl(f)
-			var bad []string
-			nraise := 0
-			for _, s := range srcs {
-				if !s.val {
+			// a flag loop: some branch inside the loop decides between staying and leaving on a boolean that is a web of constants
+			for b := range l.Body {
+				iff, ok := b.Instrs[len(b.Instrs)-1].(*ssa.If)
+				if !ok || len(b.Succs) != 2 {
 					continue
 				}
-				nraise++
-				if why := strictlyImprovedAt(s.from, l); why != "" {
-					bad = append(bad, "the flag raised on the way out of the block at "+m.Pos(lastPos(s.from))+" "+why)
+				leaves := func(s *ssa.BasicBlock) bool { return !l.Body[s] }
+				if leaves(b.Succs[0]) == leaves(b.Succs[1]) {
+					continue
 				}
-			}
-			pos := m.Pos(iff.Cond.Pos())
-			if pos == "" || pos == "-" {
-				pos = m.Pos(f.Pos())
-			}
-			if len(bad) == 0 {
-				r.add(Obligation{Key: key, Pos: pos, Desc: fmt.Sprintf("%d place(s) raise the repeat flag, each under a strict comparison of two counts of the same counting function", nraise), Verdict: "holds", Control: ctl})
-			} else {
-				r.add(Obligation{Key: key, Pos: pos, Desc: "the repeat flag is raised only on a strict improvement", Verdict: "violation",
-					Detail: strings.Join(uniq(bad), "; ") + ": a pass that changes the state without improving the count asks for another pass, and the loop can alternate between equally good states for ever", Control: ctl})
+				cond := iff.Cond
+				neg := false
+				if u, ok := cond.(*ssa.UnOp); ok && u.Op == token.NOT {
+					cond, neg = u.X, true
+				}
+				flag, ok := cond.(*ssa.Phi)
+				if !ok || !l.Body[flag.Block()] || judged[flag] {
+					continue
+				}
+				// the loop goes on while the flag is set
+				stayOnTrue := !leaves(b.Succs[0])
+				if neg {
+					stayOnTrue = !stayOnTrue
+				}
+				if !stayOnTrue {
+					continue
+				}
+				srcs, allConst := flagSources(flag, l)
+				hasTrue, hasFalse := false, false
+				for _, s := range srcs {
+					if s.val {
+						hasTrue = true
+					} else {
+						hasFalse = true
+					}
+				}
+				if !allConst || !hasTrue || !hasFalse {
+					continue
+				}
+				// an improvement loop: raising the flag depends on an ordered comparison of numbers somewhere
+				improvement := false
+				for _, s := range srcs {
+					if s.val && dependsOnOrderedComparison(s.from, l, 0) {
+						improvement = true
+					}
+				}
+				if !improvement {
+					continue
+				}
+				judged[flag] = true
+				nloop++
+				key := fmt.Sprintf("strict-progress:%s#loop%d", funcKey(f), nloop)
+				ctl := m.FuncIsPosctl(f)
+				var bad []string
+				nraise := 0
+				for _, s := range srcs {
+					if !s.val {
+						continue
+					}
+					nraise++
+					if why := strictlyImprovedAt(s.from, l, 0); why != "" {
+						bad = append(bad, "the flag raised on the way out of the block at "+m.Pos(lastPos(s.from))+" "+why)
+					}
+				}
+				pos := m.Pos(lastPos(b))
+				if len(bad) == 0 {
+					r.add(Obligation{Key: key, Pos: pos, Desc: fmt.Sprintf("%d place(s) raise the repeat flag, each confined to the true edge of a strict comparison", nraise), Verdict: "holds", Control: ctl})
+				} else {
+					r.add(Obligation{Key: key, Pos: pos, Desc: "the repeat flag is raised only on a strict improvement", Verdict: "violation",
+						Detail: strings.Join(uniq(bad), "; ") + ": a pass that does not improve the count asks for another pass, and the loop can alternate between equally good states for ever", Control: ctl})
+				}
 			}
 		}
 	}
+}
+
+type flagSrc struct {
+	val  bool
+	from *ssa.BasicBlock // predecessor block of the phi edge that carries the constant
+}
+
+// flagSources resolves a boolean phi inside loop l to the constants that can reach it from inside the loop.
+func flagSources(flag *ssa.Phi, l *loopInfo) ([]flagSrc, bool) {
+	var srcs []flagSrc
+	allConst := true
+	seen := map[*ssa.Phi]bool{}
+	var walk func(p *ssa.Phi)
+	walk = func(p *ssa.Phi) {
+		if seen[p] {
+			return
+		}
+		seen[p] = true
+		for i, e := range p.Edges {
+			pred := p.Block().Preds[i]
+			if l != nil && !l.Body[pred] {
+				continue // value on entry
+			}
+			switch x := e.(type) {
+			case *ssa.Const:
+				if x.Value == nil || x.Value.Kind() != constant.Bool {
+					allConst = false
+					continue
+				}
+				srcs = append(srcs, flagSrc{constant.BoolVal(x.Value), pred})
+			case *ssa.Phi:
+				walk(x)
+			default:
+				allConst = false
+			}
+		}
+	}
+	walk(flag)
+	return srcs, allConst
+}
+
+func isLoopHead(b *ssa.BasicBlock) bool {
+	for _, p := range b.Preds {
+		if b.Dominates(p) {
+			return true
+		}
+	}
+	return false
+}
+
+func isOrderedNumericCmp(v ssa.Value) (*ssa.BinOp, bool) {
+	cmp, ok := v.(*ssa.BinOp)
+	if !ok {
+		return nil, false
+	}
+	switch cmp.Op {
+	case token.LSS, token.GTR, token.LEQ, token.GEQ:
+	default:
+		return nil, false
+	}
+	bx, ok := cmp.X.Type().Underlying().(*types.Basic)
+	if !ok || bx.Info()&types.IsNumeric == 0 {
+		return nil, false
+	}
+	return cmp, true
+}
+
+// boolResultFlag: v is the bool result of a static call of a module function; returns that function.
+func boolResultFlag(v ssa.Value) *ssa.Function {
+	c, ok := v.(*ssa.Call)
+	if !ok {
+		return nil
+	}
+	callee := c.Call.StaticCallee()
+	if callee == nil || !inModule(callee) || len(callee.Blocks) == 0 || callee.Signature.Results().Len() != 1 {
+		return nil
+	}
+	if b, ok := callee.Signature.Results().At(0).Type().Underlying().(*types.Basic); !ok || b.Kind() != types.Bool {
+		return nil
+	}
+	return callee
+}
+
+// dependsOnOrderedComparison: block b (in loop l, or anywhere in its function when l is nil) is control-dependent on an ordered
+// comparison of numbers, directly or through a bool-returning module function.
+func dependsOnOrderedComparison(b *ssa.BasicBlock, l *loopInfo, depth int) bool {
+	for _, d := range transitiveControlDeps(b) {
+		if l != nil && !l.Body[d.If.Block()] {
+			continue
+		}
+		if _, ok := isOrderedNumericCmp(d.If.Cond); ok && !isLoopHead(d.If.Block()) {
+			return true
+		}
+		if callee := boolResultFlag(d.If.Cond); callee != nil && depth < 2 {
+			found := false
+			eachInstr(callee, func(in ssa.Instruction) {
+				ret, ok := in.(*ssa.Return)
+				if !ok {
+					return
+				}
+				if _, ok := isOrderedNumericCmp(ret.Results[0]); ok {
+					found = true
+				}
+				if phi, ok := ret.Results[0].(*ssa.Phi); ok {
+					srcs, _ := flagSources(phi, nil)
+					for _, s := range srcs {
+						if s.val && dependsOnOrderedComparison(s.from, nil, depth+1) {
+							found = true
+						}
+					}
+				}
+			})
+			if found {
+				return true
+			}
+		}
+	}
+	return false
 }
 
 func lastPos(b *ssa.BasicBlock) token.Pos {
@@ -767,13 +875,14 @@ func lastPos(b *ssa.BasicBlock) token.Pos {
 	return token.NoPos
 }
 
-// strictlyImprovedAt: block b (inside loop l) is dominated by the true edge of a strict integer comparison between two results of the
-// same static callee; returns "" if so, else a description of what is missing.
-func strictlyImprovedAt(b *ssa.BasicBlock, l *loopInfo) string {
+// strictlyImprovedAt: block b (inside loop l; anywhere in its function when l is nil) is dominated by the true edge of a strict comparison
+// of numbers (when both operands are call results: of the same callee), or by the true edge of a call of a bool-returning module function
+// that reports true only in that way; returns "" if so, else a description of what is missing.
+func strictlyImprovedAt(b *ssa.BasicBlock, l *loopInfo, depth int) string {
 	sawCmp := false
 	for d := b; d != nil; d = d.Idom() {
 		id := d.Idom()
-		if id == nil || !l.Body[id] {
+		if id == nil || (l != nil && !l.Body[id]) {
 			break
 		}
 		iff, ok := id.Instrs[len(id.Instrs)-1].(*ssa.If)
@@ -790,9 +899,47 @@ func strictlyImprovedAt(b *ssa.BasicBlock, l *loopInfo) string {
 		if edge < 0 {
 			continue
 		}
-		cmp, ok := iff.Cond.(*ssa.BinOp)
-		if !ok {
+		if callee := boolResultFlag(iff.Cond); callee != nil && edge == 0 && depth < 2 {
+			okAll, n := true, 0
+			eachInstr(callee, func(in ssa.Instruction) {
+				ret, ok := in.(*ssa.Return)
+				if !ok {
+					return
+				}
+				n++
+				switch x := ret.Results[0].(type) {
+				case *ssa.Const:
+					if x.Value != nil && x.Value.Kind() == constant.Bool && constant.BoolVal(x.Value) {
+						if strictlyImprovedAt(ret.Block(), nil, depth+1) != "" {
+							okAll = false
+						}
+					}
+				case *ssa.BinOp:
+					if cmp, ok := isOrderedNumericCmp(x); !ok || (cmp.Op != token.LSS && cmp.Op != token.GTR) {
+						okAll = false
+					}
+				case *ssa.Phi:
+					srcs, all := flagSources(x, nil)
+					if !all {
+						okAll = false
+					}
+					for _, s := range srcs {
+						if s.val && strictlyImprovedAt(s.from, nil, depth+1) != "" {
+							okAll = false
+						}
+					}
+				default:
+					okAll = false
+				}
+			})
+			if okAll && n > 0 {
+				return ""
+			}
 			continue
+		}
+		cmp, ok := isOrderedNumericCmp(iff.Cond)
+		if !ok || isLoopHead(id) {
+			continue // a loop's own continuation test says nothing about improvement
 		}
 		op := cmp.Op
 		if edge == 1 {
@@ -808,21 +955,18 @@ func strictlyImprovedAt(b *ssa.BasicBlock, l *loopInfo) string {
 		if op != token.LSS && op != token.GTR {
 			continue
 		}
-		bx, ok1 := cmp.X.Type().Underlying().(*types.Basic)
-		if !ok1 || bx.Info()&types.IsInteger == 0 {
-			continue
-		}
 		sawCmp = true
 		cx, ok1 := cmp.X.(*ssa.Call)
 		cy, ok2 := cmp.Y.(*ssa.Call)
-		if ok1 && ok2 && cx.Call.StaticCallee() != nil && cx.Call.StaticCallee() == cy.Call.StaticCallee() {
-			return ""
+		if ok1 && ok2 && cx.Call.StaticCallee() != nil && cy.Call.StaticCallee() != nil && cx.Call.StaticCallee() != cy.Call.StaticCallee() {
+			continue // two different measures
 		}
+		return ""
 	}
 	if sawCmp {
-		return "depends on a strict comparison, but not of two results of one counting function"
+		return "depends on a strict comparison, but of the results of two different functions"
 	}
-	return "is not confined to the true edge of a strict comparison (<, >) of the count after the change with the count before it"
+	return "is not confined to the true edge of a strict comparison (<, >) of the new value with the old one"
 }
 
 // ---------- BAL-2 ----------
